@@ -807,3 +807,15 @@ Proof.
   cbn in Hb'. destruct t'; destruct Hb' as [<-|[<-|[<-|[<-|[]]]]]; vm_compute in He'; discriminate.
 Qed.
 Print Assumptions C09X_combine_counterexample.
+
+(* the same from the hypothesis of C04_combine_spec: shard graphs with duplicate-free k-mers carrying pairwise different
+   shard ids *)
+From DBG Require Check.PipelineCheck.
+Theorem C09X_combine_shards_within : forall K stranded (sh : dna -> N) (bs : list N) (gs : list (graph rpay)),
+  NoDup bs ->
+  Forall2 (fun b g => NoDup (PipelineCheck.graph_kmers K stranded g) /\
+                      forall x, In x (PipelineCheck.graph_kmers K stranded g) -> sh x = b) bs gs ->
+  Forall (rvalid_loose rpay K stranded) gs ->
+  rvalid_loose_within rpay K stranded gs (combine_graphs gs).
+Proof. exact RecompLooseCombine.combine_shards_rvalid_loose_within. Qed.
+Print Assumptions C09X_combine_shards_within.
